@@ -3011,6 +3011,11 @@ int x509_access_method_from_der(int *oid, const uint8_t **in, size_t *inlen)
 		else *oid = -1;
 		return ret;
 	}
+	if (!info) {
+		// well-formed OID that is not an access method we know
+		error_print();
+		return -1;
+	}
 	*oid = info->oid;
 	return 1;
 }
